@@ -20,20 +20,20 @@ import (
 )
 
 var specs = map[string]*core.PropertySpec{
-	"C03": {Property: "C03", Engine: faultsweep.New("C03", "closure"), QuickS: 75, ThoroughS: 1200, RunCapS: 300},
-	"C05": {Property: "C05", Engine: faultsweep.New("C05", "containment"), QuickS: 75, ThoroughS: 1800, RunCapS: 300},
-	"C11": {Property: "C11", Engine: func() core.Engine {
+	"C03": {Property: "C03", CrashViolation: true, Engine: faultsweep.New("C03", "closure"), QuickS: 75, ThoroughS: 1200, RunCapS: 300},
+	"C05": {Property: "C05", CrashViolation: true, Engine: faultsweep.New("C05", "containment"), QuickS: 75, ThoroughS: 1800, RunCapS: 300},
+	"C11": {Property: "C11", CrashViolation: true, Engine: func() core.Engine {
 		return &combo{main: cancelsweep.New(), sub: map[string]core.Engine{"blocked": multistate.New("C11")()}}
 	}, QuickS: 55, ThoroughS: 1500, RunCapS: 300,
 		Subs: []core.SubSpec{{Sub: "blocked", BudgetS: 8, Workers: 4}}},
-	"C12": {Property: "C12", Engine: limitswarm.New, QuickS: 60, ThoroughS: 1500, RunCapS: 300},
-	"C06": {Property: "C06", Engine: cosched.New, QuickS: 55, ThoroughS: 1200, RunCapS: 300,
+	"C12": {Property: "C12", CrashViolation: true, Engine: limitswarm.New, QuickS: 60, ThoroughS: 1500, RunCapS: 300},
+	"C06": {Property: "C06", CrashViolation: true, Engine: cosched.New, QuickS: 55, ThoroughS: 1200, RunCapS: 300,
 		// 4 (quick) / 60 (thorough) body pairs x all 126 resume sequences of length <= 6 over two coroutines
 		Subs: []core.SubSpec{{Sub: "exhaustive", BudgetS: 20, MaxRuns: 63, Workers: 8}, {Sub: "exhaustive", Thorough: true, BudgetS: 600, MaxRuns: 945, Workers: 8}}},
-	"C19": {Property: "C19", Engine: iohist.New, QuickS: 45, ThoroughS: 900, RunCapS: 120},
-	"C20": {Property: "C20", Engine: reqhist.New, QuickS: 40, ThoroughS: 600, RunCapS: 120, Subs: []core.SubSpec{{Sub: "short", BudgetS: 8, Workers: 8}}},
-	"C13": {Property: "C13", Engine: multistate.New("C13"), QuickS: 75, ThoroughS: 1500, RunCapS: 120, RaceFraction: 0.5},
-	"C08": {Property: "C08", Engine: streamload.New, QuickS: 45, ThoroughS: 900, RunCapS: 20, HangViolation: true},
+	"C19": {Property: "C19", CrashViolation: true, Engine: iohist.New, QuickS: 45, ThoroughS: 900, RunCapS: 120},
+	"C20": {Property: "C20", CrashViolation: true, Engine: reqhist.New, QuickS: 40, ThoroughS: 600, RunCapS: 120, Subs: []core.SubSpec{{Sub: "short", BudgetS: 8, Workers: 8}}},
+	"C13": {Property: "C13", CrashViolation: true, Engine: multistate.New("C13"), QuickS: 75, ThoroughS: 1500, RunCapS: 120, RaceFraction: 0.5},
+	"C08": {Property: "C08", CrashViolation: true, Engine: streamload.New, QuickS: 45, ThoroughS: 900, RunCapS: 20, HangViolation: true},
 }
 
 // combo runs a different engine for a sub-mode of the same property.
